@@ -42,7 +42,7 @@ def expected_reward(I, rate, fstart, fend, user_snaps, total_snaps, first, until
 class Scn:
     """two users (alice, bob) on LP1, one or two farms paying uusd; concrete epochs"""
 
-    def __init__(self, I, alice_second=None, bob_from=6, last_a=None, last_b=None, farms=((4, 12),), alice_from=3, cursor_gap=False, epoch=None):
+    def __init__(self, I, alice_second=None, bob_from=6, last_a=None, last_b=None, farms=((4, 12),), alice_from=3, cursor_gap=False, epoch=None, max_concurrent=2):
         self.I = I
         self.E = E if epoch is None else epoch
         # representation invariant of the weight history: a claim up to epoch L leaves the claimant's earliest
@@ -54,7 +54,7 @@ class Scn:
         if last_b is not None:
             bob_from = last_b
         I.set_hint(HINT)
-        fm_config(I, max_concurrent=2)
+        fm_config(I, max_concurrent=max_concurrent)
         set_epoch(I, self.E, now_s=self.E * DAY + 5)
         set_ownership(I, FM, 'admin')
         b = bank_of(I)
@@ -131,7 +131,7 @@ class Scn:
         return 'ok', r.f[0].data
 
 
-def replay_scn(alice_second, last_a, farms=((4, 12),), bob_from=6, alice_from=3, last_b=None, actions=None, cursor_gap=False, epoch=None):
+def replay_scn(alice_second, last_a, farms=((4, 12),), bob_from=6, alice_from=3, last_b=None, actions=None, cursor_gap=False, epoch=None, max_concurrent=2):
     """native scenario reproducing Scn from a model; actions: list of (user, until|None)"""
     from .pm import generic_replay
 
@@ -160,7 +160,7 @@ def replay_scn(alice_second, last_a, farms=((4, 12),), bob_from=6, alice_from=3,
                                mints=[('farm_manager', mints)])
         for (user, until) in (actions or [('alice', None)]):
             steps.append({'op': 'execute', 'contract': 'farm_manager', 'sender': user, 'funds': [], 'msg': {'claim': {'until_epoch': until}}})
-        sc = {'setup': {'time_nanos': '0', 'epoch': {'genesis': '0', 'duration': str(DAY)}, 'farm': {'max_concurrent_farms': 2}}, 'steps': steps}
+        sc = {'setup': {'time_nanos': '0', 'epoch': {'genesis': '0', 'duration': str(DAY)}, 'farm': {'max_concurrent_farms': max_concurrent}}, 'steps': steps}
         return sc, len(steps) - 1
     return generic_replay(build)
 
@@ -324,6 +324,46 @@ for _until in (None, 4):
                statement='a farm that has expired but was never closed: the Rewards query still equals what an immediate Claim pays, which is the sum of the epoch shares',
                bounds='current epoch 45, farm [2,6) (expired since epoch ~38), user snapshots at 3, another user from 4; until_epoch %s; weights / rate symbolic' % _until, covers=['ok'],
                replay=replay_scn(None, None, farms=((2, 6),), bob_from=4, epoch=45, actions=[('alice', _until)]))(_ob_query_equals_claim_expired(_until))
+
+
+# eleven farms on the LP token (the owner raised max_concurrent_farms to 12): only the one listed LAST by identifier (f-9 sorts after f-10, f-11) is active
+_MANY_FARMS = tuple([(20, 25)] * 8 + [(4, 12)] + [(20, 25)] * 2)
+
+
+def _ob_many_farms(until):
+    def s(I):
+        sc = Scn(I, alice_second=8, farms=_MANY_FARMS, max_concurrent=12)
+        b = sc.b
+        for fx in sc.farms:
+            I.assume(smt.Eq(fx['claimed0'], 0))
+        pre = b.snapshot()
+        qs, resp = sc.query_rewards('alice', until)
+        U = E if until is None else until
+        exp, per_farm = sc.expected('alice', U)
+        st, _ = sc.claim('alice', until)
+        I.cover('ok', HINT)
+        I.observe('status', 'ok' if st == 'ok' else 'err')
+        I.observe('bal:alice:uusd', b.get('alice', 'uusd'))
+        I.observe('last:alice', last_claimed_of(I, 'alice'))
+        observe_farm(I, 'f-9')
+        I.check('claim_succeeds', st == 'ok')
+        if st != 'ok':
+            return
+        paid = simp(b.get('alice', 'uusd') - pre.get('alice', 'uusd'))
+        I.check('pays_the_epoch_shares_of_every_active_farm', smt.Eq(paid, exp))
+        I.check('active_farm_books_its_shares', smt.Eq(get_farm(I, 'f-9').get('claimed_amount'), per_farm[8]))
+        I.check('query_succeeds_when_claim_does', qs == 'ok')
+        if qs == 'ok':
+            I.check('query_total_equals_claim_payment', smt.Eq(coins_total(resp.get('total_rewards'), 'uusd'), paid))
+    return s
+
+
+for _until in (None, 7):
+    obligation('C07', 'L7.eleven_farms_active_one_listed_last_until%s' % _until, entries=['execute', 'claim', 'calculate_rewards', 'get_farms_by_lp_denom', 'query', 'query_rewards'], kind='S',
+               statement='eleven farms on the LP token (max_concurrent_farms = 12), ten not yet started and the active one last in identifier order (beyond a default page of the '
+                         'farm listing): Claim and the Rewards query pay its epoch shares',
+               bounds='current epoch 10; farm f-9 [4,12), ten farms [20,25); user snapshots at 3 and 8, another user from 6; until_epoch %s; weights / rates symbolic' % _until, covers=['ok'],
+               replay=replay_scn(8, None, farms=_MANY_FARMS, max_concurrent=12, actions=[('alice', _until)]))(_ob_many_farms(_until))
 
 
 def _ob_farm_order(farms, until):
